@@ -68,25 +68,42 @@ func loopCounterBits(fd *ast.FuncDecl) (int, error) {
 	return bits, err
 }
 
-// callOrder: is the first call of `first` textually before the first call of `second` in the function body
+// callBefore: is `first` called unconditionally (in a top-level statement of the function body: an expression or
+// assignment statement, or the init/condition of a top-level if) before the top-level statement that calls `second`
 func callBefore(fd *ast.FuncDecl, first, second string) (bool, error) {
-	p1, p2 := token.NoPos, token.NoPos
-	ast.Inspect(fd.Body, func(n ast.Node) bool {
-		if c, ok := n.(*ast.CallExpr); ok {
-			name := exprString(c.Fun)
-			if name == first && p1 == token.NoPos {
-				p1 = c.Pos()
-			}
-			if name == second && p2 == token.NoPos {
-				p2 = c.Pos()
-			}
+	contains := func(n ast.Node, name string) bool {
+		found := false
+		if n == nil {
+			return false
 		}
-		return true
-	})
-	if p1 == token.NoPos || p2 == token.NoPos {
-		return false, fmt.Errorf("%s: calls %s / %s not both found", fd.Name.Name, first, second)
+		ast.Inspect(n, func(x ast.Node) bool {
+			if c, ok := x.(*ast.CallExpr); ok && exprString(c.Fun) == name {
+				found = true
+			}
+			return true
+		})
+		return found
 	}
-	return p1 < p2, nil
+	i1, i2 := -1, -1
+	for i, st := range fd.Body.List {
+		uncond := false
+		switch v := st.(type) {
+		case *ast.IfStmt:
+			uncond = (v.Init != nil && contains(v.Init, first)) || contains(v.Cond, first)
+		case *ast.AssignStmt, *ast.ExprStmt:
+			uncond = contains(st, first)
+		}
+		if uncond && i1 < 0 {
+			i1 = i
+		}
+		if contains(st, second) && i2 < 0 {
+			i2 = i
+		}
+	}
+	if i2 < 0 {
+		return false, fmt.Errorf("%s: call of %s not found", fd.Name.Name, second)
+	}
+	return i1 >= 0 && i1 < i2, nil
 }
 
 func regexLiterals(fd *ast.FuncDecl) []string {
